@@ -301,6 +301,7 @@ func cmdVC(args []string) int {
 }
 
 type checkRun struct {
+	bounded  []*BoundedResult
 	prop     string
 	tier     string
 	results  []*OblResult
@@ -342,7 +343,7 @@ func runCheck(prop, tier string) (*checkRun, error) {
 			problems = append(problems, fmt.Sprintf("vacuous contract: no return of %s is reachable under its preconditions", tr.topShort))
 		}
 	}
-	return &checkRun{prop: prop, tier: tier, results: results, problems: problems, trs: trs, missing: missing, engine: e}, nil
+	return &checkRun{prop: prop, tier: tier, results: results, problems: problems, trs: trs, missing: missing, engine: e, bounded: runBounded(prop, tier)}, nil
 }
 
 func cmdLock(args []string) int {
@@ -436,7 +437,7 @@ func report(cr *checkRun, seed int, start time.Time) int {
 			exit = 2
 		}
 	}
-	if len(cr.results) == 0 {
+	if len(cr.results) == 0 && len(cr.bounded) == 0 {
 		fmt.Printf("BROKEN-CHECK no obligations generated for %s\n", prop)
 		exit = 2
 	}
@@ -503,6 +504,33 @@ func report(cr *checkRun, seed int, start time.Time) int {
 		}
 		perObl = append(perObl, map[string]interface{}{"name": name, "kind": r.Obl.Kind, "sites": len(r.Obl.Sites), "discharged": r.Discharged, "solver": r.Solver, "secs": round3(r.Secs)})
 	}
+	var boundedEv []map[string]interface{}
+	for _, br := range cr.bounded {
+		if br.Err != "" {
+			fmt.Printf("BROKEN-CHECK bounded stand-in %s: %s\n", br.Spec.Name, br.Err)
+			exit = 2
+			continue
+		}
+		boundedEv = append(boundedEv, map[string]interface{}{"name": br.Spec.Name, "label": "bounded (not proved)", "cases": br.Cases, "failing": br.Failing, "bound": br.Spec.Bound, "secs": round3(br.Secs), "exhaustive_within_bound": true})
+		if br.Failing > 0 {
+			file := filepath.Join(verifDir, "out", "replay", sanitizeFile("bounded__"+br.Spec.Name)+".json")
+			rep := map[string]interface{}{"property": prop, "bounded_check": br.Spec.Name, "bound": br.Spec.Bound, "failing_cases": br.Failing, "first_failing_inputs": br.Violations,
+				"replay_cmd": "/verif/tools/replay.sh /repo " + br.Spec.Pkg + " '" + br.Spec.Run + "' " + filepath.Join(verifDir, "bounded", br.Spec.Files[0])}
+			b, _ := json.MarshalIndent(rep, "", " ")
+			os.WriteFile(file, append(b, '\n'), 0o644)
+			key := br.Spec.Name + "\x00*"
+			if k, ok := kf[key]; ok {
+				seenKF[key] = true
+				fmt.Printf("KNOWN-FINDING: property=%s %s: %s\n", prop, br.Spec.Name, k.What)
+			} else {
+				violations++
+				fmt.Printf("VIOLATION property=%s replay=%s bounded=%s failing=%d of %d cases (real function executed on the failing inputs)\n", prop, file, br.Spec.Name, br.Failing, br.Cases)
+				if exit == 0 {
+					exit = 1
+				}
+			}
+		}
+	}
 	for key, k := range kf {
 		if !seenKF[key] {
 			fmt.Printf("INFO: known finding no longer fails: %s @ %s\n", k.Obligation, k.Site)
@@ -550,6 +578,7 @@ func report(cr *checkRun, seed int, start time.Time) int {
 			"discharged_by_solver":      bySolver,
 			"solver_seconds":            round3(solverSecs),
 			"contract_files":            cr.engine.db.Files,
+			"bounded":                   boundedEv,
 			"explanation":               "obligations = contract clauses (post/pre/invariant/safety) of the functions listed, generated from go/ssa of /repo's working tree; each is one or more SMT queries that must be unsat",
 		},
 		"assumptions": assumptions,
